@@ -51,10 +51,16 @@ REQUIRED = {
             "rigid_steps": 40, "mass_sum_checks": 20, "mass_hessian_vs_assembled_checks": 20, "p1_mass_reference_checks": 3,
             "bc:free": 2, "bc:constrained": 4, "dt_changes": 100, "nonlinear_material_steps": 20,
             "class:momentum_general": 3, "class:trapezoid_energy_arbitrary": 2, "class:trapezoid_energy_consistent": 2,
-            "class:rigid_translation": 2, "class:mass": 2},
+            "class:rigid_translation": 2, "class:mass": 2,
+            "class:axisym_momentum": 1, "class:axisym_trapezoid_energy": 2, "class:axisym_rigid_translation": 1, "class:pp_momentum": 3,
+            "class:axisym_pp_momentum": 2,
+            "steps:axisym": 60, "steps:plane_pp0": 30, "steps:plane_pp1": 15, "steps:axisym_pp0": 15, "steps:axisym_pp1": 15,
+            "axisym_energy_steps": 30, "option_rigid_steps": 30, "axisym_mass_sum_checks": 12},
     "quick": {},
     "thorough": {"steps_checked": 45000, "energy_steps_arbitrary": 12000, "energy_steps_consistent": 12000, "rigid_steps": 8000,
-                 "mass_sum_checks": 2000, "long_histories_200": 80, "order:4": 10, "nonlinear_material_steps": 3000},
+                 "mass_sum_checks": 2000, "long_histories_200": 80, "order:4": 10, "nonlinear_material_steps": 3000,
+                 "steps:axisym": 2500, "steps:plane_pp0": 250, "steps:plane_pp1": 250, "steps:axisym_pp0": 150, "steps:axisym_pp1": 150,
+                 "axisym_energy_steps": 1500, "option_rigid_steps": 800, "axisym_mass_sum_checks": 400},
 }
 WATCHDOG_S = {"quick": 2400, "thorough": 5 * 3600}
 MAX_VACUOUS_FRACTION = 0.15
@@ -87,18 +93,25 @@ def _case(seed, cls, i, **kw):
     matname = kw.pop("matname", "lin_linear")
     params = kw.pop("params", "trapezoid")
     low_quad = kw.pop("low_quad", False)
+    mode = kw.pop("mode", "plane strain")
+    pp = kw.pop("pp", None)
+    incompressible = kw.pop("incompressible", False)
+    axisym = mode == "axisymmetric"
+    if pp is not None and order < 2:
+        order = 2      # on linear triangles J is constant per element: the projection would be the identity
     beta, gamma = _newmark_params(rng, params)
-    mat = cfg.material_spec(rng, matname, with_density=True)
+    mat = cfg.material_spec(rng, matname, with_density=True, nearly_incompressible=incompressible)
     mat["E"] = cfg.loguniform(rng, 1e-2, 1e6)
     mat["density"] = cfg.loguniform(rng, 1e-3, 1e3)
-    ms = cfg.mesh_spec(rng, meshkind, order, small=True)
+    ms = cfg.mesh_spec(rng, meshkind, order, axisym=axisym, small=True)
     q = int(rng.choice(cfg.QUAD_LOW[order] if low_quad else cfg.QUAD_ADEQUATE[order]))
     if not low_quad:
-        q = max(q, 2 * order)   # the consistent mass integrates N_a N_b (degree 2p): below that it is singular for p >= 3
+        q = max(q, 2 * order + (1 if axisym else 0))   # axisymmetric mass integrates r N_a N_b (degree 2p+1)   # the consistent mass integrates N_a N_b (degree 2p): below that it is singular for p >= 3
     if ms.get("bubble"):
         q = max(q, 6)   # the cubic bubble function squared has degree 6; below that the consistent mass is singular / indefinite
     c = {"cls": cls, "group": "%s%d" % (cls, i), "seed": derive_seed(seed, PROPERTY, cls, i, "run"),
-         "mesh": ms, "meshkind": meshkind, "quad": q, "material": mat, "beta": beta, "gamma": gamma, "params": params}
+         "mesh": ms, "meshkind": meshkind, "quad": q, "material": mat, "beta": beta, "gamma": gamma, "params": params,
+         "mode": mode, "pp": pp}
     c.update(kw)
     c.setdefault("cost", 20.0 + 0.6 * c.get("nsteps", 0))
     return c
@@ -135,6 +148,25 @@ def build_cases(tier, seed):
                                nsteps=ns, ubc_nonzero=False, incremental=False, tr="default" if i == 0 else "large"))
         for i in range(3):
             cases.append(_case(seed, "mass", i, order=1, meshkind="delaunay", nmeshes=7, cost=30.0))
+        # the other options of create_dynamics_functions: axisymmetric function spaces, pressure projection 0/1, both
+        AX = "axisymmetric"
+        plan = [  # cls, matname, params, order, meshkind, bc, dt_kind, init, mode, pp, nearly incompressible
+            ("axisym_momentum", "neo_adagio", "random", 2, "delaunay", "edge", "random", "arbitrary", AX, None, False),
+            ("axisym_trapezoid_energy", "lin_linear", "trapezoid", 1, "graded", "random", "random", "consistent", AX, None, False),
+            ("axisym_trapezoid_energy", "lin_linear", "trapezoid", 2, "structured", "free", "alternating", "arbitrary", AX, None, False),
+            ("axisym_rigid_translation", "lin_linear", "trapezoid", 2, "delaunay", "roller", "random", "rigid", AX, None, False),
+            ("pp_momentum", "neo_adagio", "random", 2, "hole", "random", "random", "arbitrary", "plane strain", 0, True),
+            ("pp_momentum", "lin_linear", "corner_a", 3, "structured", "edge", "ramp", "arbitrary", "plane strain", 1, False),
+            ("pp_momentum", "gent", "trapezoid", 2, "graded", "free", "random", "rigid", "plane strain", 0, False),
+            ("axisym_pp_momentum", "neo_coupled", "random", 2, "delaunay", "random", "random", "arbitrary", AX, 0, False),
+            ("axisym_pp_momentum", "lin_linear", "random", 2, "graded", "edge", "ramp", "arbitrary", AX, 1, True),
+        ]
+        seen = {}
+        for (cls, m, prm, o, k, bc, dk, init, mode, pp, inc) in plan:
+            i = seen.get(cls, 0)
+            seen[cls] = i + 1
+            cases.append(_case(seed, cls, i, matname=m, params=prm, order=o, meshkind=k, bc=bc, dt_kind=dk, init=init, nsteps=ns,
+                               ubc_nonzero=False, incremental=False, tr="large", mode=mode, pp=pp, incompressible=inc))
         return cases
 
     # ----------------------------------------------------------------- thorough
@@ -162,6 +194,31 @@ def build_cases(tier, seed):
                            ubc_nonzero=False, incremental=False, tr=["large", "default"][i % 2]))
     for i in range(96):
         cases.append(_case(seed, "mass", i, order=1, meshkind="delaunay", nmeshes=12, cost=50.0))
+    AX = "axisymmetric"
+    akinds = ["delaunay", "graded", "structured", "hole"]
+    for i in range(24):
+        m = ["neo_adagio", "lin_linear", "gent", "lin_gl", "neo_coupled", "lin_linear"][i % 6]
+        cases.append(_case(seed, "axisym_momentum", i, matname=m, params=["random", "corner_a", "random", "corner_b"][i % 4], order=[1, 2, 3, 2][i % 4],
+                           meshkind=akinds[i % 4], bc=bck[i % 4], dt_kind=dtk[i % 4], init="arbitrary", nsteps=60 if m == "lin_linear" else 30,
+                           ubc_nonzero=(i % 5 == 2), incremental=(i % 4 == 3), tr=["large", "default"][i % 2], mode=AX))
+    for i in range(24):
+        cases.append(_case(seed, "axisym_trapezoid_energy", i, order=[1, 2, 3, 2][i % 4], meshkind=akinds[(i + 1) % 4], bc=bck[(i + 1) % 4],
+                           dt_kind=dtk[i % 4], init=["arbitrary", "consistent"][i % 2], nsteps=[120, 60, 200, 40][i % 4], ubc_nonzero=(i % 5 == 1),
+                           incremental=(i % 6 == 5), tr=["large", "default"][i % 2], mode=AX))
+    for i in range(10):
+        cases.append(_case(seed, "axisym_rigid_translation", i, params=["trapezoid", "random"][i % 2], order=[1, 2, 3][i % 3],
+                           meshkind=akinds[i % 4], bc=["free", "roller"][i % 2], dt_kind=dtk[i % 4], init="rigid", nsteps=100,
+                           ubc_nonzero=False, incremental=False, tr=["large", "default"][i % 2], mode=AX, pp=[None, None, 0, 1][i % 4]))
+    for i in range(24):
+        m = ["neo_adagio", "lin_linear", "gent", "neo_coupled", "lin_gl", "lin_linear"][i % 6]
+        cases.append(_case(seed, "pp_momentum", i, matname=m, params=["random", "trapezoid", "corner_a"][i % 3], order=[2, 3, 2, 2][i % 4],
+                           meshkind=kinds[i % 6], bc=bck[i % 4], dt_kind=dtk[(i + 1) % 4], init=["arbitrary", "arbitrary", "rigid"][i % 3], nsteps=30,
+                           ubc_nonzero=(i % 7 == 3), incremental=(i % 5 == 4), tr=["large", "default"][i % 2], pp=i % 2, incompressible=(i % 4 < 2)))
+    for i in range(16):
+        m = ["neo_coupled", "lin_linear", "gent", "neo_adagio"][i % 4]
+        cases.append(_case(seed, "axisym_pp_momentum", i, matname=m, params=["random", "corner_b"][i % 2], order=[2, 3][i % 2],
+                           meshkind=akinds[i % 4], bc=bck[(i + 2) % 4], dt_kind=dtk[i % 4], init="arbitrary", nsteps=30,
+                           ubc_nonzero=False, incremental=False, tr="large", mode=AX, pp=(i // 2) % 2, incompressible=(i % 4 >= 2)))
     return cases
 
 
@@ -199,8 +256,9 @@ def _max_grad(U, conns, shapeGrads):
     return float(onp.abs(G).max())
 
 
-def _check_mass(res, dyn, fs, mesh, rho, quad_degree, order, label):
-    """mass clauses on one function space; returns (M_full numpy, area)."""
+def _check_mass(res, dyn, fs, mesh, rho, quad_degree, order, label, axisym=False):
+    """mass clauses on one function space; returns (M_full numpy, area).  Axisymmetric function space: the measure is
+    2 pi r dA, so sum M = rho * int 2 pi r dA = rho * 2 pi * sum_e A_e * r_centroid(e)  (exact for straight-sided triangles)."""
     import jax
     import jax.numpy as jnp
     from optimism import FunctionSpace, SparseMatrixAssembler
@@ -219,17 +277,22 @@ def _check_mass(res, dyn, fs, mesh, rho, quad_degree, order, label):
     res.count("mass_hessian_vs_assembled_checks")
     res.bound("mass_symmetric", float(onp.max(onp.abs(M - M.T))), TOL_MASS_MAT * mmax, {"where": label})
     want = rho * area
+    if axisym:
+        ar = onp.abs(nref.simplex_areas(X, simplex))
+        want = rho * 2.0 * math.pi * float(onp.sum(ar * X[simplex][:, :, 0].mean(axis=1)))
     for comp in range(2):
         s = float(M[comp::2, comp::2].sum())
         res.bound("mass_sum_equals_density_times_area", abs(s - want), TOL_MASS_SUM * want * math.sqrt(nN),
                   {"where": label, "sum": s, "rho_area": want, "component": comp, "order": order, "quad": quad_degree})
         res.count("mass_sum_checks")
+        if axisym:
+            res.count("axisym_mass_sum_checks")
     res.bound("mass_components_uncoupled", float(onp.max(onp.abs(M[0::2, 1::2]))), 0.0, {"where": label})
     # kinetic energy of a rigid translation = 1/2 rho area |v|^2 (output function)
     v = onp.array([0.7, -1.3])
     T = float(dyn.compute_output_kinetic_energy(jnp.tile(jnp.array(v), (nN, 1))))
     res.bound("kinetic_energy_rigid", abs(T - 0.5 * want * float(v @ v)), 1e-12 * want * float(v @ v), {"where": label})
-    if order == 1 and quad_degree >= 2:
+    if order == 1 and quad_degree >= 2 and not axisym:
         Mp1 = nref.p1_consistent_mass(X, conns, rho)
         res.bound("mass_vs_p1_closed_form", float(onp.max(onp.abs(M - Mp1))), TOL_MASS_MAT * float(onp.max(onp.abs(Mp1))), {"where": label})
         res.count("p1_mass_reference_checks")
@@ -249,19 +312,20 @@ def _run_mass_case(case, res):
         order = int(rng.integers(1, 5)) if k >= 4 else k + 1
         kind = kinds[int(rng.integers(len(kinds)))]
         low = bool(rng.random() < 0.4)
-        ms = cfg.mesh_spec(rng, kind, order, small=True)
+        axisym = (k % 3 == 2)
+        ms = cfg.mesh_spec(rng, kind, order, axisym=axisym, small=True)
         q = int(rng.choice(cfg.QUAD_LOW[order] if low else cfg.QUAD_ADEQUATE[order]))
         if k == 0:
             q = 2
         mesh = meshes.build(ms, rng_of(ms["seed"]))
         quad = QuadratureRule.create_quadrature_rule_on_triangle(degree=q)
-        fs = FunctionSpace.construct_function_space(mesh, quad)
+        fs = FunctionSpace.construct_function_space(mesh, quad, "axisymmetric" if axisym else "cartesian")
         rho = cfg.loguniform(rng, 1e-3, 1e3)
         mat = {"name": "lin_linear", "E": cfg.loguniform(rng, 1e-2, 1e6), "nu": float(rng.uniform(0, 0.45)), "density": rho}
         with contextlib.redirect_stdout(io.StringIO()):
             m = cfg.build_material(mat)
-        dyn = Mechanics.create_dynamics_functions(fs, "plane strain", m, Mechanics.NewmarkParameters(gamma=0.5, beta=0.25))
-        _check_mass(res, dyn, fs, mesh, rho, q, order, "mesh%d:%s:o%d:q%d" % (k, kind, order, q))
+        dyn = Mechanics.create_dynamics_functions(fs, "axisymmetric" if axisym else "plane strain", m, Mechanics.NewmarkParameters(gamma=0.5, beta=0.25))
+        _check_mass(res, dyn, fs, mesh, rho, q, order, "mesh%d:%s:o%d:q%d%s" % (k, kind, order, q, ":axisym" if axisym else ""), axisym=axisym)
         res.count("mass_meshes")
         res.count("mass_order:%d" % order)
         res.count("mass_low_quadrature" if low else "mass_adequate_quadrature")
@@ -286,7 +350,12 @@ def run_case(case):
     beta, gamma = float(case["beta"]), float(case["gamma"])
     mat_spec = case["material"]
     rho, E = mat_spec["density"], mat_spec["E"]
-    linear = mat_spec["name"] == "lin_linear"
+    mode = case.get("mode", "plane strain")
+    pp = case.get("pp")
+    axisym = mode == "axisymmetric"
+    # the energy clause (and the wide time-step range) needs a QUADRATIC strain energy: small-strain elasticity without the
+    # (nonlinear) volume-average projection of the deformation gradient
+    linear = mat_spec["name"] == "lin_linear" and pp is None
     trapezoid = (beta == 0.25 and gamma == 0.5)
     order = case["mesh"]["order"]
     init = case["init"]
@@ -311,11 +380,14 @@ def run_case(case):
     elif bc == "roller":
         sel = rng.random(nN) < 0.3
         sel[int(rng.integers(nN))] = True
-        mask[sel, 1] = True
+        mask[sel, 0 if axisym else 1] = True     # rigid translation stays possible along the other axis (z for axisymmetry)
+    if axisym and X[:, 0].min() <= 0:
+        res.inconclusive("generator produced r <= 0 for an axisymmetric configuration")
+        return res
     mesh = meshes.with_nodesets(mesh, {"bcx": onp.flatnonzero(mask[:, 0]), "bcy": onp.flatnonzero(mask[:, 1])})
     conns = onp.asarray(mesh.conns)
     quad = QuadratureRule.create_quadrature_rule_on_triangle(degree=case["quad"])
-    fs = FunctionSpace.construct_function_space(mesh, quad)
+    fs = FunctionSpace.construct_function_space(mesh, quad, "axisymmetric" if axisym else "cartesian")
     ebcs = [] if bc == "free" else [FunctionSpace.EssentialBC("bcx", 0), FunctionSpace.EssentialBC("bcy", 1)]
     dm = FunctionSpace.DofManager(fs, 2, ebcs)
     if not onp.array_equal(onp.asarray(dm.isBc), mask):
@@ -329,14 +401,17 @@ def run_case(case):
     res.count("params:" + case["params"])
     res.count("mat:" + mat_spec["name"])
     res.count("meshkind:" + case["meshkind"])
+    opt = ("axisym" if axisym else "plane") + ("_pp%d" % pp if pp is not None else "")
+    res.count("option_configs:" + opt)
 
     with contextlib.redirect_stdout(io.StringIO()):
         mat = cfg.build_material(mat_spec)
-    dyn = Mechanics.create_dynamics_functions(fs, "plane strain", mat, Mechanics.NewmarkParameters(gamma=gamma, beta=beta))
+    dyn = Mechanics.create_dynamics_functions(fs, mode, mat, Mechanics.NewmarkParameters(gamma=gamma, beta=beta),
+                                              pressureProjectionDegree=pp)
     st = dyn.compute_initial_state()
 
     # ------------------------------------------------------------ mass (all dofs), restricted to the unknowns
-    M_full, area = _check_mass(res, dyn, fs, mesh, rho, case["quad"], order, "stepping_config")
+    M_full, area = _check_mass(res, dyn, fs, mesh, rho, case["quad"], order, "stepping_config", axisym=axisym)
     Mel = dyn.compute_element_masses()
     M_uu = onp.asarray(SparseMatrixAssembler.assemble_sparse_stiffness_matrix(Mel, mesh.conns, dm).toarray())
     res.bound("mass_assembled_with_bcs", float(onp.max(onp.abs(M_uu - M_full[onp.ix_(unk, unk)]))), TOL_MASS_MAT * float(onp.max(onp.abs(M_full))))
@@ -350,7 +425,23 @@ def run_case(case):
 
     # ------------------------------------------------------------ harness-side derivatives of the library's output energies
     shapeGrads = onp.asarray(fs.shapeGrads)
+    shapes = onp.asarray(fs.shapes)
     h = math.sqrt(area / conns.shape[0])
+    r_qp = onp.einsum("eqa,ea->eq", shapes, X[conns][..., 0])
+
+    def smeasure(Uf):
+        """largest displacement-gradient component; for axisymmetry also the hoop strain u_r / r at the quadrature points"""
+        g = _max_grad(Uf, conns, shapeGrads)
+        if axisym:
+            ur = onp.einsum("eqa,ea->eq", shapes, onp.asarray(Uf)[conns][..., 0])
+            g = max(g, float(onp.abs(ur / r_qp).max()))
+        return g
+
+    def rfield():
+        Uf = _field(rng, X, h, order)
+        if axisym:
+            Uf[:, 0] -= Uf[:, 0].mean()      # no net radial shift: it would be a pure hoop strain of size shift / r
+        return Uf
 
     def se_of(Uu, Ubc):
         return dyn.compute_output_strain_energy(dm.create_field(Uu, Ubc), st, 0.0)
@@ -361,8 +452,8 @@ def run_case(case):
     Ubc_full = onp.zeros((nN, 2))
     strain = cfg.loguniform(rng, 1e-4, 3e-2) if linear else float(rng.uniform(0.005, 0.04))
     if case.get("ubc_nonzero") and bc != "free":
-        Ub = _field(rng, X, h, order)
-        Ub *= 0.3 * strain / max(_max_grad(Ub, conns, shapeGrads), 1e-300)
+        Ub = rfield()
+        Ub *= 0.3 * strain / max(smeasure(Ub), 1e-300)
         Ubc_full[mask] = Ub[mask]
         res.count("nonzero_constant_bc_values")
     Ubc = jnp.array(Ubc_full[mask])
@@ -371,24 +462,27 @@ def run_case(case):
     if init == "rigid":
         cvec = rng.standard_normal(2) * L * 10.0 ** rng.uniform(-2, 1)
         vvec = rng.standard_normal(2) * L / float(dts.sum()) * 10.0 ** rng.uniform(-1, 1.5)
-        if bc == "roller":
+        if axisym:
+            cvec[0] = 0.0      # only the axial translation is a rigid motion of a body of revolution
+            vvec[0] = 0.0
+        elif bc == "roller":
             cvec[1] = 0.0
             vvec[1] = 0.0
         U0 = onp.tile(cvec, (nN, 1))
         V0 = onp.tile(vvec, (nN, 1))
         A0 = onp.zeros((nN, 2))
     else:
-        U0 = _field(rng, X, h, order)
-        U0 *= strain / max(_max_grad(U0, conns, shapeGrads), 1e-300)
-        V0 = _field(rng, X, h, order)
-        vs = strain / max(_max_grad(V0, conns, shapeGrads), 1e-300) / dt_star * 10.0 ** rng.uniform(-1.0, 0.5)
+        U0 = rfield()
+        U0 *= strain / max(smeasure(U0), 1e-300)
+        V0 = rfield()
+        vs = strain / max(smeasure(V0), 1e-300) / dt_star * 10.0 ** rng.uniform(-1.0, 0.5)
         if not linear:
-            vs = min(vs, 0.05 / max(_max_grad(V0, conns, shapeGrads), 1e-300) / float(dts.max()))
+            vs = min(vs, 0.05 / max(smeasure(V0), 1e-300) / float(dts.max()))
         V0 *= vs
-        A0 = _field(rng, X, h, order)
-        As = strain / max(_max_grad(A0, conns, shapeGrads), 1e-300) / dt_star ** 2 * 10.0 ** rng.uniform(-1.0, 0.5)
+        A0 = rfield()
+        As = strain / max(smeasure(A0), 1e-300) / dt_star ** 2 * 10.0 ** rng.uniform(-1.0, 0.5)
         if not linear:
-            As = min(As, 0.05 / max(_max_grad(A0, conns, shapeGrads), 1e-300) / float(dts.max()) ** 2)
+            As = min(As, 0.05 / max(smeasure(A0), 1e-300) / float(dts.max()) ** 2)
         A0 *= As
         U0[mask] = Ubc_full[mask]
         V0[mask] = 0.0
@@ -465,6 +559,12 @@ def run_case(case):
         res.count("formula_checks")
         if not ok:
             res.count("solver_failed_steps")
+            try:
+                gfail = float(onp.linalg.norm(onp.asarray(obj.gradient(jnp.array(Uu_new)))))
+                res.ratio("solver_failed_step:|grad|/tol (information only)", gfail, tol)
+                res.obs["last_failure"] = "step %d dt/dt*=%.3g |grad|/tol=%.3g finite=%s" % (n, dt / dt_star, gfail / tol, bool(onp.isfinite(gfail)))
+            except Exception:  # noqa
+                pass
             break
         nconv += 1
         res.count("solver_converged_steps")
@@ -477,6 +577,7 @@ def run_case(case):
                    "inertia": float(onp.linalg.norm(M_uu @ Au_new)), "internal": float(onp.linalg.norm(f_new))})
         res.count("momentum_checks")
         res.count("steps_checked")
+        res.count("steps:" + opt)
         if not linear:
             res.count("nonlinear_material_steps")
         if n > 0 and abs(dt - float(dts[n - 1])) > 1e-3 * dt:
@@ -511,6 +612,8 @@ def run_case(case):
                 res.ratio("energy_relative_drift_vs_1e-9_per_100_steps(recorded, not enforced)", rel, 1e-9 * max(1.0, (n + 1) / 100.0))
                 worst_drift = max(worst_drift, rel)
                 res.count("energy_steps_consistent" if init == "consistent" else "energy_steps_arbitrary")
+                if axisym:
+                    res.count("axisym_energy_steps")
         Elist.append(En)
         # ---- rigid translation
         if init == "rigid":
@@ -527,6 +630,8 @@ def run_case(case):
             res.bound("rigid_translation_acceleration", float(onp.max(onp.abs(Au_new))), TOL_RIGID * float(onp.linalg.norm(vvec)) / dt * max(1.0, t / dt),
                       {"step": n, "t": t, "dt": dt})
             res.count("rigid_steps")
+            if axisym or pp is not None:
+                res.count("option_rigid_steps")
         Uu, Vu, Au, r_prev = Uu_new, Vu_new, Au_new, r_new
     if int(case["nsteps"]) >= 200 and nconv >= 200:
         res.count("long_histories_200")
